@@ -46,6 +46,10 @@ class C11(GenericModelFamily):
             ctx.violation({"family": "direct oracle: the facts (with origins) an authorizer holds after a clean run are the same in every rebuild",
                            "case_index": i, "case": lines[i] if i < len(lines) else None,
                            "violated_clause": "what queries observe depends on the hash seed / insertion order"}, True)
+        for i in (summ.get("cases_whose_query_answers_vary") or [])[:5]:
+            ctx.violation({"family": "direct oracle: Authorizer::query / query_all answers (as multisets) after a clean run are the same in every rebuild",
+                           "case_index": i, "case": lines[i] if i < len(lines) else None,
+                           "violated_clause": "the answers of a query depend on the hash seed / insertion order"}, True)
         if kreal and not real:
             ctx.violation({"theorem_or_correspondence": "in-kernel replay disagrees with extracted model",
                            "kernel_bad": kreal[:10]}, False)
